@@ -251,11 +251,9 @@ namespace Pistache::Http::Header
             os << directiveString(d);
             if (hasDelta(d))
             {
+                // delta-seconds is mandatory for the parser, also when it is 0
                 auto delta = d.delta();
-                if (delta.count() > 0)
-                {
-                    os << "=" << delta.count();
-                }
+                os << "=" << delta.count();
             }
 
             if (i < directives_.size() - 1)
